@@ -478,8 +478,12 @@ func genSite(rng *core.Rand) string {
 	case 1:
 		p = "/"
 	}
-	return fmt.Sprintf("site %s %s %s %s %s %s %s %s %s", core.Hex(w.cwd), core.Hex(w.rootCfg), showList(hide), showList(idx),
+	line := fmt.Sprintf("site %s %s %s %s %s %s %s %s %s", core.Hex(w.cwd), core.Hex(w.rootCfg), showList(hide), showList(idx),
 		bits(rng.Chance(1, 2), rng.Chance(1, 4), rng.Chance(3, 4)), triesF, core.Hex(p), w.treeField(), core.Hex(cf))
+	if len(tries) > 0 && rng.Chance(1, 3) {
+		line += " " + rng.Pick([]string{"1", "L", "S", "M"})
+	}
+	return line
 }
 
 var queries = []string{"x=1", "a=b&c=%zz", "//evil.example/", "?", "q=/../", "%2f%2fevil", "nex=//evil.example", "a?b", "/", "x=%", "a=1/", "", "sor=name&order=desc"}
